@@ -27,6 +27,10 @@ pub const CAP: u64 = 2000;
 struct Exec<'a> {
     g: &'a GraphSpec,
     cache_modules: bool,
+    /// do not stop at a load of a file in progress: count it and go on (work bound over ANY order in
+    /// which the loads of a file may really be executed, e.g. @use/@forward hoisted before the body)
+    past_loops: bool,
+    cap: u64,
     in_progress: Vec<(usize, Option<(LoadKind, bool)>)>,
     loaded: Vec<bool>,
     loads: u64,
@@ -43,7 +47,7 @@ impl Exec<'_> {
     /// One load of `target` from `file`; `None` = done, go on.
     fn do_load(&mut self, file: usize, kind: LoadKind, target: usize, alias: bool) -> Option<Verdict> {
         self.loads += 1;
-        if self.loads > CAP {
+        if self.loads > self.cap {
             return Some(Verdict::TooBig);
         }
         if let Some(pos) = self.in_progress.iter().position(|(f, _)| *f == target) {
@@ -51,6 +55,9 @@ impl Exec<'_> {
             self.cycle_kinds = self.in_progress[pos + 1..].iter().filter_map(|(_, k)| k.map(|k| k.0)).collect();
             self.cycle_kinds.push(kind);
             self.cycle_alias = alias || self.in_progress[pos + 1..].iter().any(|(_, k)| k.is_some_and(|k| k.1));
+            if self.past_loops {
+                return None;
+            }
             return Some(Verdict::Loop);
         }
         if kind.is_module() && self.cache_modules && self.loaded[target] {
@@ -102,6 +109,8 @@ pub fn run_model(g: &GraphSpec, cache_modules: bool) -> ModelRun {
     let mut e = Exec {
         g,
         cache_modules,
+        past_loops: false,
+        cap: CAP,
         in_progress: vec![(0, None)],
         loaded: vec![false; g.files.len()],
         loads: 0,
@@ -116,6 +125,28 @@ pub fn run_model(g: &GraphSpec, cache_modules: bool) -> ModelRun {
         closing: e.closing,
         cycle_kinds: e.cycle_kinds,
         cycle_alias: e.cycle_alias,
+    }
+}
+
+/// Number of loads of the uncached execution when a load of a file in progress is counted and
+/// skipped instead of ending the run: an upper bound on the loads of any real execution up to its
+/// first loop error, whatever the order in which a file's loads are executed.  `None` = above the cap.
+pub fn work_bound(g: &GraphSpec) -> Option<u64> {
+    let mut e = Exec {
+        g,
+        cache_modules: false,
+        past_loops: true,
+        cap: 10 * CAP,
+        in_progress: vec![(0, None)],
+        loaded: vec![false; g.files.len()],
+        loads: 0,
+        closing: None,
+        cycle_kinds: vec![],
+        cycle_alias: false,
+    };
+    match e.exec(0) {
+        Verdict::TooBig => None,
+        _ => Some(e.loads),
     }
 }
 
